@@ -69,7 +69,9 @@ func VerifC15_ProduceConsume() {
 		}
 		wire = enc.Wire{content[:k], content[k:]}
 	}
-	objName, _ := enc.NameFromStr("/obj")
+	base, _ := enc.NameFromStr("/obj")
+	// the caller's name slice may have spare capacity (as slices built with append usually do)
+	objName := append(make(enc.Name, 0, 1+[]int{0, 1, 4}[verifChoice("spare", 3)]), base...)
 	args := ProduceArgs{Name: objName, Content: wire}
 	if verifBool("explicitVersion") {
 		v := verifRange("version", 0, 300)
@@ -79,6 +81,7 @@ func VerifC15_ProduceConsume() {
 	var err error
 	verifNoPanic("C15/produce-no-panic", func() { vname, err = producer.Produce(args) })
 	verifAssert(err == nil && len(vname) == 2, "C15/produce-succeeds")
+	verifAssert(len(vname) == 2 && vname[0].Equal(base[0]) && vname[1].Typ == enc.TypeVersionNameComponent, "C15/produce-returns-the-versioned-name")
 	nseg := (total + 7999) / 8000
 
 	// consumer with the real client run loop
@@ -88,7 +91,13 @@ func VerifC15_ProduceConsume() {
 	completions := 0
 	var got []byte
 	var gotErr error
-	consumer.Consume(objName, func(st *ConsumeState) bool {
+	// fetch through the metadata (object name without version) or directly by the versioned name, whose slice may
+	// again have spare capacity
+	fetchName := objName
+	if verifBool("byVersionedName") {
+		fetchName = append(make(enc.Name, 0, len(vname)+[]int{0, 2}[verifChoice("cspare", 2)]), vname...)
+	}
+	consumer.Consume(fetchName, func(st *ConsumeState) bool {
 		if st.IsComplete() {
 			completions++
 			gotErr = st.Error()
